@@ -31,7 +31,8 @@ CONSTANTS Base,      \* base-unit tokens
           Ops,       \* enabled operations
           Seeds,     \* extra units already interned at Init (built by ordinary algebra before the history starts)
           Foreign,   \* units whose serialised form arrives from ANOTHER process (may not be interned here yet)
-          QKinds,    \* what is serialised: 0 the unit itself; 1, 2, 3 a quantity with int, float, Decimal magnitude
+          QKinds,    \* what is serialised: 0 the unit itself; 1, 2, 3 a quantity with int, float, Decimal magnitude;
+                     \* 4 a quantity whose int magnitude is beyond 2^53 (no longer a number every JSON reader keeps)
           Shipped    \* subset of {"as_ratio_dim", "root_floor"}: deviations of the shipped code
 
 VARIABLES known, dimOf, oidOf, nextOid, pickled, ev
@@ -140,7 +141,7 @@ Touch(u, v, kind) ==
   /\ UNCHANGED <<tab, pickled>>
 
 \* C15: serialisation is two separate steps so that other operations may come in between.
-\* kind 0 = the unit itself; kind 1, 2, 3 = a quantity of that unit with an int, float, Decimal magnitude
+\* kind 0 = the unit itself; kind 1, 2, 3 = a quantity of that unit with an int, float, Decimal magnitude; 4 = a big int
 \* (in histories with a DefineDim only what was serialised BEFORE the definition is of interest - the rest are the
 \* ordinary round trips - so the abstract state, a set, determines the order of dumps and definition)
 Dump(u, codec, kind) ==
